@@ -57,3 +57,8 @@ Definition proto_rounds (sc : list pact) (s : Protocol.state) : list (list (list
 Definition push_call (inp : input) : Protocol.call := Protocol.CPush (fst (fst (fst inp))) (snd inp).
 Definition mf_calls (first rest : list input) : list Protocol.call :=
   map push_call first ++ [Protocol.CDrain; Protocol.CSync] ++ map push_call rest.
+
+(* ---------------------------------------------------------------------------- the API calls of single-file mode *)
+(* one PanSN file: the reference sample, drain() once when the second sample starts, the other samples *)
+Definition sf_calls (ref rest : list input) : list Protocol.call :=
+  map push_call ref ++ (match rest with [] => [] | _ :: _ => [Protocol.CDrain] end) ++ map push_call rest.
